@@ -27,6 +27,13 @@ import os, re, sys, json
 
 
 class Refuse(Exception):
+    """the translator cannot read this source (construct outside the fragment, function not found, …)"""
+    pass
+
+
+class AssumptionBroken(Refuse):
+    """a fact the hand-written model depends on (a constant, an enumerator value, the shape of a class or macro), which the spec's
+    prepare() step reads from the source, no longer holds"""
     pass
 
 
@@ -1418,7 +1425,12 @@ def generate(spec, repo, out_path=None):
     spec = dict(spec)
     spec.pop("_generated", None)
     if "prepare" in spec:
-        spec["prepare"](spec, repo)
+        try:
+            spec["prepare"](spec, repo)
+        except AssumptionBroken:
+            raise
+        except Refuse as ex:
+            raise AssumptionBroken(str(ex))
     L = ["import GeosModel.Base.Cxx"] + ["import " + m for m in spec.get("imports", [])]
     files = sorted(set(f["file"] for f in spec["functions"]) | set(spec.get("also_reads", [])))
     L += ["/-! GENERATED by translate/cxx2lean.py (spec %s) from %s — do not edit.  Statement-by-statement translation; see" % (spec["id"], ", ".join(files)),
